@@ -261,6 +261,20 @@ class Check:
         sys.exit(1 if self.violations else 0)
 
 
+def load_corpus(pid):
+    """Minimised past failures / witnesses kept under corpus/<id>/ (run first)."""
+    d = os.path.join(VERIF, "corpus", pid)
+    out = []
+    if os.path.isdir(d):
+        for fn in sorted(os.listdir(d)):
+            if fn.endswith(".json"):
+                try:
+                    out.append((fn, json.load(open(os.path.join(d, fn)))))
+                except ValueError:
+                    pass
+    return out
+
+
 def load_known():
     p = os.path.join(VERIF, "known_findings.json")
     if not os.path.exists(p):
